@@ -36,6 +36,8 @@
   component `recv` that the lockstep correspondence runs against the real code.
 -/
 import BacVerif.Model.Route
+import BacVerif.Lemmas.RouteGlobal
+set_option linter.unusedSimpArgs false
 namespace BacVerif.C06
 open BacVerif BacVerif.Route
 
@@ -427,5 +429,132 @@ theorem forwarding_terminates (topo : Topology) (f : Packet) :
 theorem hop_measure (t : TNode) (a : Adapter) (f g : Packet) (h : g ∈ emitted t a f) :
     g.npci.fuel < f.npci.fuel := emitted_fuel t a f g h
 
+
+/-! ## global broadcast on trees -/
+
+mutual
+theorem NetTree.population_lans (S : NetTree) (x : Nat × Station) (h : x ∈ S.population) : x.1 ∈ S.lans := by
+  match S with
+  | .mk lan sts rs =>
+    simp only [NetTree.population, List.mem_append, List.mem_map] at h
+    rcases h with ⟨s, _, rfl⟩ | h
+    · simp [NetTree.lans]
+    · simp [NetTree.lans, Routers.population_lans rs x h]
+theorem Routers.population_lans (rs : Routers) (x : Nat × Station) (h : x ∈ rs.population) : x.1 ∈ rs.lans := by
+  match rs with
+  | .nil => simp [Routers.population] at h
+  | .cons ua um la c ds rest =>
+    simp only [Routers.population, List.mem_append] at h
+    rcases h with h | h
+    · simp [Routers.lans, Downs.population_lans ds x h]
+    · simp [Routers.lans, Routers.population_lans rest x h]
+theorem Downs.population_lans (ds : Downs) (x : Nat × Station) (h : x ∈ ds.population) : x.1 ∈ ds.lans := by
+  match ds with
+  | .nil => simp [Downs.population] at h
+  | .cons aid mac sub rest =>
+    simp only [Downs.population, List.mem_append] at h
+    rcases h with h | h
+    · simp [Downs.lans, NetTree.population_lans sub x h]
+    · simp [Downs.lans, Downs.population_lans rest x h]
+end
+
+/-- the deliveries of a global broadcast from `o` on tree `T`: `originate` at `o`, then the
+    global simulator on every frame it put on a LAN -/
+def gbDeliveries (T : NetTree) (o : Station) (er : Bool) (prio : Nat) (data : Bytes) : List Delivery :=
+  (originPackets (originate (o.st T.lan) .global er prio data).2).flatMap (deliverAll T.nodes)
+
+/-- … never to the originator -/
+theorem tree_global_broadcast_not_to_originator (T : NetTree) (o : Station) (er : Bool) (prio : Nat)
+    (data : Bytes) (ho : o ∈ T.stations) (hnd : T.lans.Nodup) (hwf : T.wf [] = true) (hh : T.height ≤ 255)
+    (x : Delivery) (hx : x ∈ gbDeliveries T o er prio data) : ¬ (x.lan = T.lan ∧ x.mac = o.mac) := by
+  unfold gbDeliveries at hx
+  rw [tree_global_broadcast T o er prio data ho hnd hwf hh] at hx
+  simp only [List.mem_append, List.mem_map, List.mem_filter, gbExpect] at hx
+  rcases hx with ⟨s, ⟨_, hs⟩, rfl⟩ | ⟨y, hy, rfl⟩
+  · simp at hs; simp [hs]
+  · have := Routers.population_lans _ y hy
+    intro ⟨e, _⟩
+    cases T with
+    | mk lan sts rs =>
+      simp only [NetTree.lans, List.nodup_cons, NetTree.routers, NetTree.lan] at hnd this e
+      exact hnd.1 (e ▸ this)
+
+/-- … and to every other station: same-network stations see `o` as a local station, all others
+    see `o`'s network number and MAC; everybody sees the destination "global broadcast" and the
+    unchanged payload -/
+theorem tree_global_broadcast_reaches_all (T : NetTree) (o : Station) (er : Bool) (prio : Nat)
+    (data : Bytes) (ho : o ∈ T.stations) (hnd : T.lans.Nodup) (hwf : T.wf [] = true) (hh : T.height ≤ 255)
+    (x : Nat × Station) (hx : x ∈ T.population) (hne : ¬ (x.1 = T.lan ∧ x.2.mac = o.mac)) :
+    ⟨x.1, x.2.mac,
+      ⟨if x.1 = T.lan then .localStation o.mac else .remoteStation T.lan o.mac, some .global, er, prio, data⟩⟩
+      ∈ gbDeliveries T o er prio data := by
+  unfold gbDeliveries
+  rw [tree_global_broadcast T o er prio data ho hnd hwf hh]
+  cases T with
+  | mk lan sts rs =>
+    simp only [NetTree.population, List.mem_append, List.mem_map] at hx
+    simp only [NetTree.lan, NetTree.stations, NetTree.routers, List.mem_append, List.mem_map, List.mem_filter]
+    simp only [NetTree.lan] at hne
+    rcases hx with ⟨s, hs, rfl⟩ | hx
+    · left
+      refine ⟨s, ⟨hs, ?_⟩, ?_⟩
+      · simpa using hne
+      · simp [lbUp]
+    · right
+      have hl := Routers.population_lans rs x hx
+      simp only [NetTree.lans, List.nodup_cons] at hnd
+      have : x.1 ≠ lan := fun e => hnd.1 (e ▸ hl)
+      simp only [gbExpect, List.mem_map]
+      exact ⟨x, hx, by simp [gbUp, this]⟩
+
+/-! ### non-vacuity: a concrete internetwork that meets the hypotheses -/
+
+/-- three networks, a three-port router and a two-port router behind it:
+    net 1 {stations 01 (knows its number), 02 (bound without number and address)}
+      └ router R1 [port 0a on net 1 | port 0b on net 2 | port 0c on net 3], local adapter = port on net 2
+          ├ net 2 {station 05} ─ router R2 [port 0d on net 2 | port 0e on net 4] ─ net 4 {stations 06, 07}
+          └ net 3 {station 08 (address only)} -/
+def demoTree : NetTree :=
+  .mk 1 [⟨[1], true, true, []⟩, ⟨[2], false, false, []⟩]
+    (.cons 0 [0x0a] 1 []
+      (.cons 1 [0x0b]
+          (.mk 2 [⟨[5], true, true, []⟩]
+            (.cons 0 [0x0d] 0 [] (.cons 1 [0x0e] (.mk 4 [⟨[6], true, true, []⟩, ⟨[7], false, true, []⟩] .nil) .nil) .nil))
+        (.cons 2 [0x0c] (.mk 3 [⟨[8], false, true, []⟩] .nil) .nil))
+      .nil)
+
+example : demoTree.lans.Nodup ∧ demoTree.wf [] = true ∧ demoTree.height ≤ 255 ∧
+    (⟨[1], true, true, []⟩ : Station) ∈ demoTree.stations := by decide
+
+
+/-! ## tree-shaped internetworks: exactly-once delivery
+
+  `NetTree` (Lemmas/RouteTree.lean) is an arbitrary finite tree: a network with any number of
+  stations (each bound with or without its network number / address) and any number of routers,
+  each router with any number of further ports, each port leading to another `NetTree`.  It is
+  rooted at the originator's network — every tree-shaped internetwork can be read that way from
+  any of its networks.  `T.nodes` flattens it to a plain `Topology`, on which the *general*
+  simulator `deliverAll` (the one that also runs on cyclic topologies) is evaluated.
+  Hypotheses, all decidable: network numbers pairwise different (`T.lans.Nodup`), on every
+  network the MACs of stations and router ports pairwise different, a router's adapter ids
+  different and its local adapter one of them (`T.wf`), at most 255 router levels. -/
+
+/-- **tree_global_broadcast_once** — the deliveries of a global broadcast from station `o` are
+    EXACTLY this list (depth-first order): one entry per other station of `o`'s network, one per
+    station of every other network; the originator's own entry is absent.  Each station of the
+    tree occurs in `T.stations` / `T.routers.population` once, hence receives exactly one copy. -/
+theorem tree_global_broadcast_once (T : NetTree) (o : Station) (er : Bool) (prio : Nat) (data : Bytes)
+    (ho : o ∈ T.stations) (hnd : T.lans.Nodup) (hwf : T.wf [] = true) (hh : T.height ≤ 255) :
+    gbDeliveries T o er prio data =
+      (T.stations.filter (fun s => s.mac != o.mac)).map
+          (fun s => ⟨T.lan, s.mac, lbUp o.mac .global er prio data⟩)
+        ++ gbExpect (T.lan, o.mac) er prio data T.routers.population :=
+  tree_global_broadcast T o er prio data ho hnd hwf hh
+
+/-- a worked instance: 5 stations besides the originator, 5 deliveries -/
+example : (gbDeliveries demoTree ⟨[1], true, true, []⟩ false 0 [0x10, 8]).map (fun d => (d.lan, d.mac)) =
+    [(1, [2]), (2, [5]), (4, [6]), (4, [7]), (3, [8])] := by
+  rw [tree_global_broadcast_once demoTree _ false 0 _ (by decide) (by decide) (by decide) (by decide)]
+  decide
 
 end BacVerif.C06
